@@ -37,6 +37,7 @@ import (
 	"strconv"
 	"strings"
 	"sync"
+	"sync/atomic"
 	"testing"
 	"time"
 
@@ -839,6 +840,106 @@ func cbkConcurrent(r *h.Report, base int, round int) {
 	r.Dist["concurrent:served-by-a-racing-arrival"] += early
 }
 
+// cbkConcurrentSame: "registering the same callback twice for one counter is refused" when the registrations come from
+// several goroutines at once (monitor only). Per round G pairs of goroutines; each pair walks through K fresh
+// counters of its own and registers the SAME function (closures of one function literal: one code pointer, the
+// identity AddResponseCallback uses) for each; before every counter the two wait for each other (a spinning barrier
+// with a bound: whoever comes first spins until the other is there), so that both calls start within nanoseconds of
+// each other whenever both goroutines are on a processor - hundreds of such moments per round. Per counter exactly
+// one call may be accepted; then, for a sample of the counters, one matching reply arrives: exactly one invocation.
+func cbkConcurrentSame(r *h.Report, base int, rounds int) {
+	const groups, k, sample = 4, 128, 4
+	w := newCbkWorld(true)
+	defer func() { w.close(); cbkSettle(base) }()
+	cbkSettle(base)
+	next := 1000
+	for round := 0; round < rounds; round++ {
+		first := next
+		next += groups * k
+		ops := []string{fmt.Sprintf("concurrent-same round %d: %d pairs of goroutines, each pair registers the same function for each of its %d counters (from %d on) of feature 1 at the same moment, then one reply per sampled counter", round, groups, k, first)}
+		// two other functions wait for the sampled counters already (the duplicate check has something to go through)
+		for g := 0; g < groups; g++ {
+			for j := 0; j < k; j += k / sample {
+				_ = w.feats[1].AddResponseCallback(model.MsgCounterType(first+g*k+j), cbkMk2(w.log, 50000))
+				_ = w.feats[1].AddResponseCallback(model.MsgCounterType(first+g*k+j), cbkMk3(w.log, 50001))
+			}
+		}
+		var wg sync.WaitGroup
+		var accepted, arrived [groups][k]int32
+		for g := 0; g < groups; g++ {
+			for half := 0; half < 2; half++ {
+				g := g
+				wg.Add(1)
+				go func() {
+					defer wg.Done()
+					for j := 0; j < k; j++ {
+						f := cbkMk1(w.log, 100000+g*k+j) // the registration id names the counter
+						atomic.AddInt32(&arrived[g][j], 1)
+						for spin := 0; atomic.LoadInt32(&arrived[g][j]) < 2 && spin < 200000; spin++ {
+						}
+						if w.feats[1].AddResponseCallback(model.MsgCounterType(first+g*k+j), f) == nil {
+							atomic.AddInt32(&accepted[g][j], 1)
+						}
+					}
+				}()
+			}
+		}
+		wg.Wait()
+		r.Eval("concurrent-same-round", "")
+		for g := 0; g < groups; g++ {
+			for j := 0; j < k; j++ {
+				switch a := atomic.LoadInt32(&accepted[g][j]); {
+				case a == 0:
+					r.SpecFail("C14/distinct-callback-refused", ops, fmt.Sprintf("both registrations of a function that was registered nowhere for counter %d were refused", first+g*k+j))
+					return
+				case a > 1:
+					// the reply that follows shows what it means
+					ctr := model.MsgCounterType(first + g*k + j)
+					_, cmd, _ := cbkPayload(1, "reply", 9000, 1)
+					w.ctr++
+					w.send(1, 1, model.CmdClassifierTypeReply, w.ctr, &ctr, cbkSrc(1, 1), cmd)
+					cbkSettle(base)
+					inv := 0
+					for _, x := range w.log.take() {
+						if x.reg == 100000+g*k+j {
+							inv++
+						}
+					}
+					r.SpecFail("C14/same-callback-registered-twice", ops, fmt.Sprintf("two goroutines registered the same function (one code pointer) for counter %d of one feature at the same moment: %d of the calls were accepted (the statement: registering the same callback twice for one counter is refused); the one reply that followed invoked it %d times", ctr, a, inv))
+					return
+				}
+			}
+		}
+		for g := 0; g < groups; g++ {
+			for j := 0; j < k; j += k / sample {
+				ctr := model.MsgCounterType(first + g*k + j)
+				_, cmd, _ := cbkPayload(1, "reply", 9000+j, 1)
+				w.ctr++
+				w.send(1, 1, model.CmdClassifierTypeReply, w.ctr, &ctr, cbkSrc(1, 1), cmd)
+			}
+		}
+		if !cbkSettle(base) {
+			r.SpecFail("C14/callback-blocked", ops, "callbacks did not return")
+			return
+		}
+		inv := map[int]int{}
+		for _, x := range w.log.take() {
+			if x.reg >= 100000 {
+				inv[x.reg-100000]++ // (the two other functions are invoked as well: not counted)
+			}
+		}
+		for g := 0; g < groups; g++ {
+			for j := 0; j < k; j += k / sample {
+				if inv[g*k+j] != 1 {
+					r.SpecFail("C14/callback-invoked-twice", ops, fmt.Sprintf("counter %d: one registration accepted, one matching reply: %d invocations", first+g*k+j, inv[g*k+j]))
+					return
+				}
+			}
+		}
+	}
+	r.Info["concurrent-same"] = fmt.Sprintf("%d rounds of %d pairs of goroutines registering one function for each of %d counters at the same moment: one accepted per counter, one invocation per sampled counter", rounds, groups, k)
+}
+
 func TestCallbacks(t *testing.T) {
 	r := h.NewReport("callbacks", "random histories of AddResponseCallback (3 function literals, 1-4 counters, node management + 6 client features on hierarchical local entities [1],[1,1],[2],[2,1] with repeated feature ids), AddResultCallback and inbound datagrams from two peers (full replies, replies with partial / partial+selector / delete filters merged into cached list data, discovery replies, results with and without error, rejected replies, replies without reference, notifies with reference, malformed results, unknown source) through HandleSpineMesssage, compared op by op with Spine.CB (registrations invoked by the arrival with the data and origin handed over); non-trivial = a history with a response-callback invocation, a refused registration and a result-callback invocation (distinct by op text). Concurrent registration rounds and the cross-peer observation: SPEC monitor only.")
 	defer r.Write()
@@ -874,6 +975,10 @@ func TestCallbacks(t *testing.T) {
 	base = h.Baseline()
 	info := map[string]int{}
 	if ops := h.ReplayOps("callbacks"); ops != nil {
+		if len(ops) > 0 && strings.HasPrefix(ops[0], "concurrent-same") {
+			cbkConcurrentSame(r, base, h.Scale(150, 1000))
+			return
+		}
 		if len(ops) > 0 && strings.HasPrefix(ops[0], "concurrent") {
 			cbkConcurrent(r, base, 0)
 			return
@@ -959,4 +1064,5 @@ func TestCallbacks(t *testing.T) {
 	for round := 0; round < h.Scale(60, 600); round++ {
 		cbkConcurrent(r, base, round)
 	}
+	cbkConcurrentSame(r, base, h.Scale(150, 1000))
 }
